@@ -1,3 +1,4 @@
+import GBProofs.FormulaProofs
 import GBProofs.Props.C04full
 import GBProofs.Layout14
 /-!
